@@ -195,6 +195,7 @@ type wConn struct {
 	errSeen  bool
 	closeSnt bool
 	faulted  bool
+	f8       bool // a prepared data message was sent while a message writer was open (finding F8)
 }
 
 // closeOnWire: has this connection already written a close frame (by whatever path)?
@@ -247,6 +248,7 @@ type wOpts struct {
 	multi      bool // several connections sharing a pool
 	allowF8    bool // WritePreparedMessage(data) while a message writer is open (finding F8)
 	bigPayload bool
+	preparedHeavy bool // most steps create or send prepared messages
 }
 
 type wGen struct {
@@ -679,8 +681,11 @@ func (g *wGen) opWritePrepared(wc *wConn, pm *wPM) {
 	if compress && !pm.cached[key] && wc.errSeen {
 		return // the image would not be observable
 	}
-	if (pm.t == 1 || pm.t == 2) && wc.cur != nil && !wc.cur.closed && !g.opt.allowF8 {
-		return
+	if (pm.t == 1 || pm.t == 2) && wc.cur != nil && !wc.cur.closed {
+		if !g.opt.allowF8 {
+			return
+		}
+		wc.f8 = true
 	}
 	err := wc.c.WritePreparedMessage(pm.pm)
 	evs := g.log.take()
@@ -749,6 +754,9 @@ func (g *wGen) step() {
 		openH = len(wc.handles) - 1
 	}
 	x := r.Intn(100)
+	if g.opt.preparedHeavy && r.Intn(3) > 0 {
+		x = 99
+	}
 	switch {
 	case x < 18:
 		t := g.pickType()
@@ -910,6 +918,10 @@ func writerOracle(sc *scenario, wc *wConn) {
 		sc.violate("%s: wire ends in an incomplete frame (%d stray bytes) although no transport fault was injected", wc.id, len(rest))
 	}
 	for _, p := range rfcCheck(frames, !wc.srv, wc.nego) {
+		if wc.f8 && (strings.Contains(p, "new data frame inside unfinished message") || strings.Contains(p, "continuation without message in progress")) {
+			sc.knownHit("F8-prepared-data-inside-open-message", fmt.Sprintf("%s: %s", wc.id, p))
+			continue
+		}
 		sc.violate("%s: wire violates RFC 6455: %s", wc.id, p)
 	}
 	// nothing after a close frame
@@ -919,7 +931,7 @@ func writerOracle(sc *scenario, wc *wConn) {
 			break
 		}
 	}
-	if wc.faulted || wc.errSeen {
+	if wc.faulted || wc.errSeen || wc.f8 {
 		return
 	}
 	// fault-free, error-free program: wire messages = API messages in order
